@@ -522,6 +522,19 @@ def rule_cond_matrix(ctx):
         else:
             obs.append(bad('COND-MATRIX', inst, 'parent kind %s falls into an arm that accepts every type condition' % kind,
                            arm['body'].get('sp', m.get('sp', '')), '`... on Droid` inside a `Human` selection is turned into code'))
+    # a rejecting guard of the form `!xs.filter(p).all(q)` accepts whenever nothing passes the filter (`all` of an empty
+    # iterator is true): a type condition of a kind the filter never yields slips through
+    for n_ in _walk(m):
+        if n_.get('k') == 'if' and _contains_err_return(n_['then']):
+            for x_ in H.walk_through_locals(fn, n_['cond'], depth=5):
+                if x_.get('k') == 'mcall' and x_['method'] == 'all':
+                    chain = set()
+                    for y_ in H.walk_through_locals(fn, x_['recv'], depth=5):
+                        if y_.get('k') == 'mcall':
+                            chain.add(y_['method'])
+                    if chain & {'filter', 'filter_map', 'skip_while', 'take_while', 'take', 'skip'}:
+                        obs.append(bad('COND-MATRIX', 'validate_type_conditions/vacuous-all', 'the rejecting test is `!..%s(..).all(..)`: true for an empty selection, so the error is not raised when nothing passes the filter' % sorted(chain & {'filter', 'filter_map', 'skip_while', 'take_while', 'take', 'skip'})[0],
+                                       x_.get('sp', n_.get('sp', '')), 'a type condition naming a union / another interface under an interface parent is accepted'))
     # equal types are accepted early; selections without a type condition are skipped
     return obs
 
